@@ -537,6 +537,11 @@ class FnTranslator:
         if isinstance(op, ast.Pow):
             if isinstance(a, V) and isinstance(b, V) and a.ty == INT and b.ty == INT and self.nonneg(b):
                 return V(f"(Py.ipow {paren(a.lean)} {paren(b.lean)})", INT)
+            if isinstance(a, V) and isinstance(b, V) and a.ty == INT and b.ty == INT:
+                # int ** int with a negative exponent is a float in Python: outside the translated domain.  Guarded, so
+                # the definition never silently differs; the tie theorem shows the guard is not reached.
+                self.pre.append(("guard", f"{b.lean} < (0 : Int)", "notImplemented"))
+                return V(f"(Py.ipow {paren(a.lean)} {paren(b.lean)})", INT)
             self.fail(node, "'**' with an exponent that is not visibly a non-negative integer")
         self.fail(node, f"unsupported operator {type(op).__name__}")
 
@@ -1397,6 +1402,10 @@ class FnTranslator:
     def st_Assign(self, s, rest, env):
         if len(s.targets) != 1:
             self.fail(s, "chained assignment")
+        if isinstance(s.value, ast.IfExp) and self.needs_pre(s.value, env):
+            # `x = a if c else f(..)` where a branch can raise: the same as the statement form
+            mk = lambda v: ast.Assign(targets=s.targets, value=v, lineno=s.lineno)
+            return self.st_If(ast.If(test=s.value.test, body=[mk(s.value.body)], orelse=[mk(s.value.orelse)], lineno=s.lineno), rest, env)
         env2 = dict(env)
         lets: List[tuple] = []
 
@@ -1406,6 +1415,20 @@ class FnTranslator:
 
         _, pre = self.with_pre(go)
         return self.wrap_pre(pre + lets, self.block(rest, env2))
+
+    def needs_pre(self, node, env) -> bool:
+        self.pre_stack.append([])
+        used = set(self.used)
+        raised = self.raised
+        try:
+            self.ex(node, env)
+            return False
+        except Untranslatable as e:
+            return "can raise inside" in str(e)
+        finally:
+            self.pre_stack.pop()
+            self.used = used
+            self.raised = raised
 
     def st_AnnAssign(self, s, rest, env):
         if s.value is None:
